@@ -705,6 +705,9 @@ func runC17(c *Ctx) {
 	}
 	if c.Thorough() {
 		for _, ty := range types {
+			if ty.eager {
+				continue // three callers plus a ticking poller: millions of executions per type; the pairs cover the poller
+			}
 			if strings.HasPrefix(ty.name, "limiter.") || strings.Contains(ty.name, "MetricRegistry") || strings.HasPrefix(ty.name, "strategy.Lookup") || strings.HasPrefix(ty.name, "strategy.PredicatePartitionStrategy") {
 				c.Explore(c17Triples(ty, 2), mc.Options{PreemptBound: 2, NoCache: true})
 			}
